@@ -7,7 +7,9 @@
 (* the expected outcome are written for the Go harness.                     *)
 EXTENDS IntCodecRef, Json
 
-Widths == {32, 64}
+Widths == {32, 64}          \* constants are emitted for both widths
+VecWidths == @@VECW@@        \* widths for which string vectors are emitted
+Delta == @@DELTA@@           \* MaxInt +- d * 10^p for d <= Delta
 
 Rep(d, n) == [j \in 1..n |-> d]
 DecBytes(ds) == [j \in 1..Len(ds) |-> 48 + ds[j]]
@@ -26,16 +28,23 @@ HexSyms(s) == [j \in 1..Len(s) |-> HexSym(s[j])]
 NonDigitBytes == {47, 58, 32, 45, 43, 97, 0, 255, 46, 95, 10}
 
 \* ---- decimal boundary numbers (as digit strings) for width w ----------------
-M(w) == MaxIntDigits(w)
+\* zero-arity definitions: TLC evaluates them once
+M64 == MaxIntDigits(64)
+M32 == MaxIntDigits(32)
+M(w) == IF w = 64 THEN M64 ELSE M32
+P64 == DPow2(64)  P63 == DPow2(63)  P32 == DPow2(32)  P31 == DPow2(31)
+PowW(w) == IF w = 64 THEN P64 ELSE P32
+PowW1(w) == IF w = 64 THEN P63 ELSE P31
+MH(w) == MaxHexCharsOf(w)
 
-\* A: MaxInt +- delta * 10^p for every digit position p and delta <= 20
+\* A: MaxInt +- delta * 10^p for every digit position p and delta <= Delta
 NearMax(w) ==
-  { DAddAt(M(w), p, d) : p \in 0..(Len(M(w)) - 1), d \in 0..20 }
-  \cup { DSubAt(M(w), p, d) : <<p, d>> \in { x \in (0..(Len(M(w)) - 1)) \X (0..20) : DCanSubAt(M(w), x[1], x[2]) } }
+  { DAddAt(M(w), p, d) : p \in 0..(Len(M(w)) - 1), d \in 0..Delta }
+  \cup { DSubAt(M(w), p, d) : <<p, d>> \in { x \in (0..(Len(M(w)) - 1)) \X (0..Delta) : DCanSubAt(M(w), x[1], x[2]) } }
 
 \* B: the accumulator values where the wrapped product 10*v changes sign or wraps to 0:
 \*    floor(k * 2^(w-1) / 10) and floor(k * 2^w / 10), k = 1..9, +- delta, followed by one more digit
-WrapPoints(w) == { DDiv10(DMul(DPow2(w - 1), k)) : k \in 1..9 } \cup { DDiv10(DMul(DPow2(w), k)) : k \in 1..9 }
+WrapPoints(w) == { DDiv10(DMul(PowW1(w), k)) : k \in 1..9 } \cup { DDiv10(DMul(PowW(w), k)) : k \in 1..9 }
 NearWrap(w) == LET pts == { DAdd(b, d) : b \in WrapPoints(w), d \in 0..5 }
                           \cup { DSub(b, d) : b \in WrapPoints(w), d \in 0..5 }
                IN pts \cup { x \o <<d>> : x \in pts, d \in {0, 5, 7, 8, 9} }
@@ -70,17 +79,17 @@ Terms == { <<>>, <<13, 10>>, <<59>>, <<32>>, <<47>>, <<58>>, <<64>>, <<71>>, <<9
 HexInputs(w) == { HexBytes(h, u) \o t : h \in HexBodies(w), u \in BOOLEAN, t \in Terms } \cup Terms
 
 Inputs == [k : {"consts"}, w : Widths]
-          \cup UNION { [k : {"dec"}, w : {w}, s : DecInputs(w)] : w \in Widths }
-          \cup UNION { [k : {"hex"}, w : {w}, s : HexInputs(w)] : w \in Widths }
+          \cup UNION { [k : {"dec"}, w : {w}, s : DecInputs(w)] : w \in VecWidths }
+          \cup UNION { [k : {"hex"}, w : {w}, s : HexInputs(w)] : w \in VecWidths }
 
 Vec(x) ==
-  CASE x.k = "consts" -> [k |-> "consts", w |-> x.w, maxint |-> MaxIntDigits(x.w),
-                          maxdiv10 |-> MaxDiv10Digits(x.w), safe |-> SafeDigitsOf(x.w),
+  CASE x.k = "consts" -> [k |-> "consts", w |-> x.w, maxint |-> M(x.w),
+                          maxdiv10 |-> DDiv10(M(x.w)), safe |-> Len(M(x.w)) - 1,
                           maxhex |-> MaxHexCharsOf(x.w)]
-    [] x.k = "dec" -> LET sy == DecSyms(x.s) r == RefParseUint(sy, x.w) b == RefParseBuf(sy, x.w) IN
+    [] x.k = "dec" -> LET sy == DecSyms(x.s) r == RefParseUint(sy, M(x.w)) b == RefParseBuf(sy, M(x.w)) IN
                       [k |-> "dec", w |-> x.w, s |-> x.s, ok |-> r.ok, val |-> r.val,
                        bufok |-> b.ok, bufval |-> b.val, bufn |-> b.n, buferr |-> b.err]
-    [] x.k = "hex" -> LET r == RefReadHex(HexSyms(x.s), x.w) IN
+    [] x.k = "hex" -> LET r == RefReadHex(HexSyms(x.s), MH(x.w)) IN
                       [k |-> "hex", w |-> x.w, s |-> x.s, ok |-> r.ok, val |-> r.val, n |-> r.n]
 
 ASSUME ndJsonSerialize("vectors.ndjson", SetToSeq({ Vec(x) : x \in Inputs }))
@@ -92,16 +101,16 @@ Spec == Init /\ [][Next]_inp
 
 \* ---- meta-properties of the reference at the real widths ---------------------------
 ConstsOK(w) ==
-  /\ DAdd(M(w), 1) = DPow2(w - 1)
-  /\ DLeq(DMul(MaxDiv10Digits(w), 10), M(w))
-  /\ ~DLeq(DMul(DAdd(MaxDiv10Digits(w), 1), 10), M(w))
-  /\ FitsW(Rep(9, SafeDigitsOf(w)), w) /\ ~FitsW(Rep(9, SafeDigitsOf(w) + 1), w)
+  /\ DAdd(M(w), 1) = PowW1(w) /\ DMul(PowW1(w), 2) = PowW(w)
+  /\ DLeq(DMul(DDiv10(M(w)), 10), M(w))
+  /\ ~DLeq(DMul(DAdd(DDiv10(M(w)), 1), 10), M(w))
+  /\ FitsD(Rep(9, Len(M(w)) - 1), M(w)) /\ ~FitsD(Rep(9, Len(M(w))), M(w))
   \* MaxHexChars hex digits stay below the sign bit, and MaxHexChars + 1 are enough for MaxInt
   /\ 4 * MaxHexCharsOf(w) < w - 1 /\ 4 * (MaxHexCharsOf(w) + 1) >= w - 1
-  /\ w = 64 => M(w) = <<9,2,2,3,3,7,2,0,3,6,8,5,4,7,7,5,8,0,7>> /\ SafeDigitsOf(w) = 18 /\ MaxHexCharsOf(w) = 15
-  /\ w = 32 => M(w) = <<2,1,4,7,4,8,3,6,4,7>> /\ SafeDigitsOf(w) = 9 /\ MaxHexCharsOf(w) = 7
+  /\ w = 64 => M(w) = <<9,2,2,3,3,7,2,0,3,6,8,5,4,7,7,5,8,0,7>> /\ Len(M(w)) - 1 = 18 /\ MaxHexCharsOf(w) = 15
+  /\ w = 32 => M(w) = <<2,1,4,7,4,8,3,6,4,7>> /\ Len(M(w)) - 1 = 9 /\ MaxHexCharsOf(w) = 7
 
-DecOK(s, w) == LET sy == DecSyms(s) r == RefParseUint(sy, w) b == RefParseBuf(sy, w) IN
+DecOK(s, w) == LET sy == DecSyms(s) r == RefParseUint(sy, M(w)) b == RefParseBuf(sy, M(w)) IN
   /\ r.ok <=> (s # <<>> /\ (\A j \in 1..Len(s) : s[j] \in 48..57) /\ DLeq(sy, M(w)))
   /\ r.ok => /\ r.val = Strip(sy) /\ DLeq(r.val, M(w))
              /\ DSub(DAdd(r.val, 7), 7) = r.val             \* the digit arithmetic is consistent
@@ -113,7 +122,7 @@ DecOK(s, w) == LET sy == DecSyms(s) r == RefParseUint(sy, w) b == RefParseBuf(sy
                           /\ ~DLeq(SubSeq(sy, 1, b.n + 1), M(w))
   /\ b.err \in {"nil", "empty", "first", "toolong"}
 
-HexOK(s, w) == LET r == RefReadHex(HexSyms(s), w) IN
+HexOK(s, w) == LET r == RefReadHex(HexSyms(s), MH(w)) IN
   /\ r.ok => r.n >= 1 /\ r.n <= MaxHexCharsOf(w) /\ Len(r.val) <= r.n /\ (r.n = Len(s) \/ HexSym(s[r.n + 1]) = 16)
   /\ ~r.ok => (s = <<>> \/ HexSym(s[1]) = 16 \/ HexPrefixLen(HexSyms(s), 1) > MaxHexCharsOf(w))
 
